@@ -142,7 +142,7 @@ def run(chk, tier):
     K, U = fev.index('Known'), fev.index('Unknown')
     rows = {}
     post = {}
-    POS = r'discr\(field:%d\(field:0\(call:Zip::next\(loop\d+\.iter\)\)\)\)'
+    POS = r'discr\(field:%d\(field:0\(call:Zip::next\((?:loop\d+\.iter|loopiter\(.*\))\)\)\)\)'
     for o in outs:
         d = [(vshow(a), v) for a, v, _ in o.st.decisions]
         val = vshow(o.value) if o.kind == 'return' else o.kind
